@@ -31,7 +31,10 @@ KNOWN_PROBES = []
 
 
 def plan(tier, seed):
-    return [dict(i=i, n=N[tier], seed=seed * 1000 + i) for i in range(SHARDS[tier])]
+    specs = [dict(i=i, n=N[tier], seed=seed * 1000 + i) for i in range(SHARDS[tier])]
+    if tier == "thorough":
+        specs.append(dict(i=99, suite=True, n=0, seed=seed))
+    return specs
 
 
 def prepare(tier, seed, workdir):
@@ -150,6 +153,9 @@ def install_loop_hook(rec):
 
 
 def run_shard(spec, rec):
+    if spec.get("suite"):
+        from vmon.props import _extract
+        return _extract.suite_under_contracts(rec, "C12.")
     rng = random.Random(spec["seed"])
     instrument.install(rec, what=("tokenize",))
     hooks = install_loop_hook(rec)
